@@ -7,7 +7,19 @@ from .gen import PF, pf_line
 
 
 def prepare(res, prop, cfgs=None, need_model=True):
-    """Rebuild everything from /repo's working tree.  Returns dict with what broke (if anything)."""
+    """Rebuild everything from /repo's working tree.  Returns dict with what broke (if anything).
+    The build steps share /verif/.cache and /verif/coq, so concurrent checks serialise here."""
+    import fcntl
+    os.makedirs(VERIF + '/.cache', exist_ok=True)
+    with open(VERIF + '/.cache/prepare.lock', 'w') as lk:
+        fcntl.flock(lk, fcntl.LOCK_EX)
+        try:
+            return _prepare(res, prop, cfgs, need_model)
+        finally:
+            fcntl.flock(lk, fcntl.LOCK_UN)
+
+
+def _prepare(res, prop, cfgs=None, need_model=True):
     broken = {}
     try:
         build_harness(cfgs)
@@ -165,7 +177,7 @@ def coq_replay_eval(fmt, i, f, e, cfg, mode):
            'Eval vm_compute in (valid_inputb ci cf (%d), RN %s (dec_value ci cf (%d))).\n') % (
         lst(i), lst(f), cfg, F, bld, e, e, F, e)
     os.makedirs(CACHE + '/replay', exist_ok=True)
-    path = CACHE + '/replay/replay_case.v'
+    path = CACHE + '/replay/replay_case_%d.v' % os.getpid()
     open(path, 'w').write(src)
     rc, out, err = sh('timeout 600 coqc -Q %s ML %s' % (COQ, path), timeout=660)
     if rc != 0:
